@@ -32,7 +32,8 @@ def rand_ast(rng, linked_ok=True, part=None):
         ast["braces"] = (rng.randrange(len(seq)), rng.choice([0, 1, 2, 5] if len(seq) > 1 else [1, 2, 5]))
     if rng.random() < 0.45:
         ast["params"]["max_errors"] = rng.choice(["0", "0.1", "0.25", "0.5", "1", "2", "3", "0.0"])
-    if rng.random() < 0.35 and restriction != "anchored":
+    if rng.random() < (0.35 if restriction != "anchored" else 0.08):
+        # (on an anchored adapter a minimum overlap is documented as rejected -- also on an anchored part of a linked adapter)
         ast["params"]["min_overlap"] = str(rng.choice([1, 2, 3, 5, 30]))
     if rng.random() < 0.3:
         ast["params"]["indels"] = rng.choice([True, False])
@@ -97,6 +98,8 @@ def meaning(ast, g, file_name=None, file_params=None, file_anchor=None):
     seq = expand_seq(ast).upper().replace("U", "T").replace("I", "N")
     if not seq:
         return None
+    if r == "anchored" and "min_overlap" in ast["params"]:
+        return None   # "Setting min_overlap/o is not possible for anchored adapters"
     table = {("g", None): "FrontAdapter", ("g", "anchored"): "PrefixAdapter", ("g", "noninternal"): "NonInternalFrontAdapter",
              ("a", None): "BackAdapter", ("a", "anchored"): "SuffixAdapter", ("a", "noninternal"): "NonInternalBackAdapter",
              ("b", None): "AnywhereAdapter"}
@@ -219,6 +222,7 @@ INVALID = [
     ("a", "ACGT;o="), ("a", "ACGT;e=abc"), ("a", "ACGT$;o=2"), ("g", "^ACGT;min_overlap=3"), ("a", "ACGT;rightmost"), ("g", "^ACGT;rightmost"),
     ("a", "ACGT;required"), ("a", "ACGT;optional"), ("b", "ACGT...TTTT"), ("g", "...ACGT"), ("a", "A{}C"), ("a", "{3}A"), ("a", "A{3"),
     ("a", "A}C"), ("a", "ACGT;required;optional...TTT"), ("a", ""), ("a", "ACG!"), ("b", "ACGT..."),
+    ("a", "^ACGTACGT;o=3...TTTTGGGG"), ("a", "ACGT...TTTT$;min_overlap=4"), ("g", "^ACGT;o=2...TTTT"), ("g", "ACGT...TTTT$;o=3"),
 ]
 
 
@@ -328,6 +332,50 @@ def check(ctx):
                 if ndis <= 10:
                     ctx.violation("correspondence:parser", {"cmd": "-" + cmd, "spec": spec, "globals": g, "records": recs, "impl": jsonable(desc), "model": jsonable(md)}, found_input=False)
     ctx.notes.setdefault("correspondence", {})["make_adapters_from_specifications"] = {"cases": len(cases), "disagreements": ndis}
+    # several specifications in one call share the dictionary of global parameters: what one specification (in particular a
+    # file: specification with file-level parameters) sets must not reach the others, nor the caller's dictionary
+    from cutadapt.parser import make_adapters_from_specifications
+    import cutadapt.adapters as A_
+
+    nseq = 0
+    for _ in range(ctx.size(60, 800)):
+        g = {"max_errors": rng.choice(["0.1", "0.2", "0"]), "min_overlap": rng.choice([3, 1, 5]), "read_wildcards": False, "adapter_wildcards": True, "indels": rng.random() < 0.8}
+        specs = []
+        for _k in range(rng.choice([2, 3])):
+            cmd = rng.choice(["a", "g", "b"])
+            if rng.random() < 0.5:
+                recs = [("r%d" % i, "".join(rng.choice("ACGT") for _ in range(rng.choice([4, 6, 9])))) for i in range(rng.randint(1, 2))]
+                pstr = rng.choice([";e=0.3", ";e=0.3;o=7", ";noindels", ";o=2", ""])
+                path = os.path.join(scratch, "seq%d.fasta" % len(specs))
+                with open(path, "w") as f:
+                    for n_, s_ in recs:
+                        f.write(">%s\n%s\n" % (n_, s_))
+                specs.append((cmd, "file:" + path + pstr))
+            else:
+                a_ = rand_ast(rng, linked_ok=False)
+                a_["name"] = "n%d" % len(specs)
+                specs.append((a_["cmd"], show(rng, a_)))
+        tmap = {"a": "back", "g": "front", "b": "anywhere"}
+        params = dict(max_errors=float(g["max_errors"]), min_overlap=g["min_overlap"], read_wildcards=False, adapter_wildcards=True, indels=g["indels"])
+        before = dict(params)
+        try:
+            A_._generate_adapter_name.__defaults__[0][0] = 1
+            together = [describe_obj(o) for o in make_adapters_from_specifications([(tmap[c], sp) for c, sp in specs], params)]
+        except Exception:
+            continue
+        alone = []
+        for c, sp in specs:
+            A_._generate_adapter_name.__defaults__[0][0] = 1
+            alone += [describe_obj(o) for o in make_adapters_from_specifications([(tmap[c], sp)], dict(before))]
+        nseq += 1
+        ctx.count(("sequence", tuple(specs), tuple(sorted(g.items()))), True)
+        strip = lambda L: [{k: v for k, v in d_.items() if k != "name"} for d_ in L]
+        if params != before:
+            ctx.violation("sequence of specifications: the caller's global parameters were changed", {"specs": [list(x) for x in specs], "globals": g, "before": before, "after": jsonable(params)})
+        elif strip(together) != strip(alone):
+            ctx.violation("sequence of specifications: a specification means something else next to others than alone",
+                          {"specs": [[c, sp.replace(scratch, "$D")] for c, sp in specs], "globals": g, "together": jsonable(together), "alone": jsonable(alone)})
+    dist["sequences of specifications"] = nseq
     # CLI: invalid specifications exit with status 2
     import cutadapt.cli as cli
     import io
